@@ -22,7 +22,7 @@ ID = "C11"
 QUICK_RUNS = 10000
 THOROUGH_RUNS = 400000
 LEVEL = "exploration"
-RULE = ("one run = one generated program (1-3 threads) logging through FileDestination(SimFile) with up to 8 crash "
+RULE = ("one run = one generated program (1-3 threads, or 1-3 coroutines on the virtual-time loop) logging through FileDestination(SimFile) with up to 8 crash "
         "points drawn over all yield points (40% biased into the write/flush window; eager write-back of the "
         "user buffer on/off, so torn tails occur); per crash point the frozen disk is checked: complete lines are "
         "offered messages without duplicates, every acknowledged message present, per-thread order, at most one "
